@@ -111,6 +111,11 @@ def coq_point_check(ctx, genfile, defs, names, gen_env, impl, n, tol, unfold, pr
             except Exception as e:
                 ctx.corr_fail("printed Coq term vs interpreter", {"definition": name, "env": env, "impl": "raise:" + type(e).__name__})
                 continue
+            if not (isinstance(w, (int, float)) and math.isfinite(w)):
+                # the implementation returned NaN / inf where the real-number model has a value: a disagreement, not
+                # a machinery failure (the oracle that follows will look for the property-level failing input)
+                ctx.corr_fail("printed Coq term vs interpreter", {"definition": name, "env": env, "impl": repr(w)})
+                continue
             args = " ".join(q(env[i]) for i in ins)
             goals.append("Goal Rabs (%s %s - %s) <= %s.\nProof. unfold %s; cbv zeta. interval with (i_prec %d). Qed.\n" % (
                 name, args, q(w), tol, ", ".join(unfold.split()), prec))
